@@ -162,8 +162,45 @@ def case_digitize(shape, ns):
     return Case(f"digitize-{R}x{C}-{'_'.join(map(str, ns))}", body, replay, split=4 if R * C >= 4 else 0)
 
 
+def case_dtypes():
+    """The element type of the value array is a finite dimension of 'all array shapes': enumerated concretely (the grid values
+    are not representable in the narrower types, so a result stored in the input's type cannot be a grid element)."""
+    grids = [np.array([0.5, 1.5, 2.5, 3.5]), np.array([0.1, 0.2, 0.7, 1.9])]
+    arrays = {"int64": np.array([[1, 0], [3, 2], [-4, 5]], dtype=np.int64), "int32": np.array([[2, 1]], dtype=np.int32),
+              "float32": np.array([[0.3, 0.15], [2.9, 1.2]], dtype=np.float32), "float16": np.array([[1.0, 0.5]], dtype=np.float16),
+              "bool": np.array([[True, False]]), "float64": np.array([[1.0, 0.16], [9.0, -3.0]])}
+
+    def check():
+        msgs = []
+        for nm, data in arrays.items():
+            try:
+                out = ub.digitize_data(data, grids)
+            except Exception as e:  # noqa: BLE001
+                msgs.append(f"{nm}: raised {type(e).__name__}: {e}")
+                continue
+            if out.shape != data.shape:
+                msgs.append(f"{nm}: shape {out.shape}")
+                continue
+            for r_ in range(data.shape[0]):
+                for c_ in range(data.shape[1]):
+                    bad, why = _judge(list(grids[c_]), float(data[r_, c_]), float(out[r_, c_]))
+                    if bad:
+                        msgs.append(f"{nm} batch, column {c_}: {why}")
+        return msgs
+
+    def body(ctx):
+        msgs = check()
+        ctx.prove(z3.BoolVal(not msgs), "columnwise", "; ".join(msgs[:3]) or "value arrays of int64/int32/float32/float16/bool/float64 element type (concrete, auxiliary)")
+
+    def replay(cex):
+        msgs = check()
+        return bool(msgs), "; ".join(msgs[:3]) or "ok"
+
+    return Case("dtypes-aux", body, replay)
+
+
 def cases(tier, seed):
-    cs = []
+    cs = [case_dtypes()]
     if tier == "quick":
         exact_ns = range(1, 13)
         rt_ns = range(1, 9)
